@@ -418,7 +418,8 @@ def nanvar(
     sum = reduce(reduce_func_name="sum", **kwargs)
     d = n - ddof
     if d == 0 or n == 0:
-        return _null_value_for_numpy_type(arr.dtype)
+        # a variance is a float: the null is NaN whatever the input dtype
+        return np.nan
     return (sum_sq - sum**2 / n) / d
 
 
